@@ -513,11 +513,21 @@ func Config(c absd.Cfg, l Layout, rng *rand.Rand) (yaml string, cli []string) {
 		twoStr("target_package_name", "target_package_name", l.TargetPkg)
 	}
 	twoStr("duration_custom_type", "custom_duration", c.DurationCustom)
+	cliBool := func(b bool) string {
+		pair := map[string][2]string{"1": {"1", "0"}, "t": {"t", "f"}, "T": {"T", "F"}, "TRUE": {"TRUE", "FALSE"}, "True": {"True", "False"}}
+		if p, ok := pair[c.BoolStyle]; ok {
+			if b {
+				return p[0]
+			}
+			return p[1]
+		}
+		return fmt.Sprintf("%v", b)
+	}
 	switch channelOf(c, "sort") {
 	case "cli":
-		cli = append(cli, fmt.Sprintf("sort=%v", c.Sort))
+		cli = append(cli, "sort="+cliBool(c.Sort))
 	case "both":
-		cli = append(cli, fmt.Sprintf("sort=%v", c.Sort))
+		cli = append(cli, "sort="+cliBool(c.Sort))
 		add("sort", fmt.Sprintf("sort: %v\n", !c.Sort))
 	default:
 		if c.Sort {
